@@ -204,6 +204,8 @@ def prop(spec, rec):
         labels.add("estimator_bound_exactly_zero")
     if spec.get("reuse_algorithm"):
         labels.add("algorithm_object_reused")
+    if spec.get("slow_car"):
+        labels.add("car_draws_less_than_the_lowest_level_of_its_station")
     rec.count("schedules", stats["schedules"])
     rec.count("ambiguous", stats["ambiguous"])
     rec.case(spec, labels, bool(stats["binding"] or stats["estimator_active"]))
@@ -229,6 +231,29 @@ def cases(draw):
         ses = spec["sessions"][k]
         ses["battery"] = {"model": "ideal", "cap": 1.0, "init": draw(st.sampled_from([0.9, 0.999, 1.0])), "maxp": 6.6}
         ses["energy"] = 6.0
+    elif draw(st.integers(0, 5)) == 0:
+        # a car that draws less than the lowest level of its finite-rate station (an old on-board
+        # charger): after two periods the rampdown estimator's bound lies below that level, and
+        # with uninterrupted charging the station's minimum pilot is what the car must get
+        k = draw(st.integers(0, len(spec["sessions"]) - 1))
+        ses = spec["sessions"][k]
+        for stn in spec["stations"]:
+            if stn["id"] == ses["station"]:
+                vlt, ph = stn["voltage"], stn["phase"]
+                stn.clear()
+                stn.update({"id": ses["station"], "voltage": vlt if float(vlt) >= 208 else 208.0, "phase": ph, "kind": "finite", "rates": draw(st.sampled_from([[0, 8, 16, 24, 32], [8, 16, 24, 32, 40, 48, 56, 64], [0, 6, 7, 8, 9, 10, 12, 16, 20, 24, 28, 32]]))})
+        ses["battery"] = {"model": "ideal", "cap": 60.0, "init": 5.0, "maxp": draw(st.sampled_from([0.6, 1.0]))}
+        ses["energy"] = 25.0
+        ses["departure"] = ses["departure"] + 3
+        for other in spec["sessions"]:
+            if other is not ses and other["station"] == ses["station"] and other["arrival"] >= ses["arrival"]:
+                other["arrival"] += 3
+                other["departure"] += 3
+                if other.get("est_departure") is not None:
+                    other["est_departure"] += 3
+        spec["scheduler"]["estimator"] = {"up": draw(st.sampled_from([1, 0.5, 2])), "down": draw(st.sampled_from([1, 0.5])), "inc": draw(st.sampled_from([1, 0.5, 0]))}
+        spec["scheduler"]["uninterrupted"] = True
+        spec["slow_car"] = True
     return spec
 
 
